@@ -404,6 +404,8 @@ class Sim:
 
     def close(self):
         try:
+            self.loop.set_exception_handler(lambda loop, context: None)
+            logging.getLogger('asyncio').setLevel(logging.CRITICAL)
             for t in asyncio.all_tasks(self.loop):
                 t.cancel()
             self.spin(3)
